@@ -1,6 +1,7 @@
 package props
 
 import (
+	"crypto/x509"
 	"encoding/xml"
 	"fmt"
 	"net/http"
@@ -72,10 +73,11 @@ type c07Cfg struct {
 	method    string
 	spSigAlg  string
 	parsePOST bool
+	interm    bool // the SP is configured with an intermediate certificate (sp.Intermediates)
 }
 
 func (k c07Cfg) String() string {
-	return fmt.Sprintf("spKey=%s noCert=%v entityID=%v postBinding=%v signReq=%v idpMethod=%q viaParseResponse=%v", k.spKey, k.noCert, k.entityID, k.post, k.signReq, shortAlg(k.method), k.parsePOST)
+	return fmt.Sprintf("spKey=%s noCert=%v entityID=%v postBinding=%v signReq=%v idpMethod=%q viaParseResponse=%v intermediates=%v", k.spKey, k.noCert, k.entityID, k.post, k.signReq, shortAlg(k.method), k.parsePOST, k.interm)
 }
 
 func runC07(c *core.Ctx) {
@@ -94,6 +96,7 @@ func runC07(c *core.Ctx) {
 		if r.Intn(3) == 0 {
 			k.noCert, k.signReq = true, false
 		}
+		k.interm = !k.noCert && c.Rng.Intn(5) == 0
 		c07Run(c, k)
 	}
 }
@@ -121,6 +124,9 @@ func c07Run(c *core.Ctx, k c07Cfg) {
 	sp := &saml.ServiceProvider{Key: spKP.Key, Certificate: spKP.Cert, MetadataURL: mustURL(so.SPMeta), AcsURL: mustURL(so.SPACS), SloURL: mustURL(so.SPSLO), IDPMetadata: &idpMD}
 	if k.noCert {
 		sp.Certificate = nil
+	}
+	if k.interm {
+		sp.Intermediates = []*x509.Certificate{fx.K("idp_s2").Cert} // any certificate will do as the "issuing CA" of the chain
 	}
 	if k.entityID {
 		sp.EntityID = "urn:example:sp:" + []string{"a", "ü", "x&y", "a b", "q?r=s#t", "<e>", "O'Neil"}[r.Intn(7)] // entity IDs are URIs: markup characters yes, line breaks no
